@@ -124,50 +124,11 @@ def jOut (o : Out F) : Json :=
 
 def raisesJ : Json := "raises"
 
-/-- per-cell evaluation through the specification layer (`cell*`), independent of the batched passes -/
-def cellSpec (e : Encoder F) (c : Nat) (feat : Feat F) (r : Nat) : Option (List F) :=
-  let fin (v : List F) : List F := Post.apply SF e.post (v.map SF.nanToNum)
-  match e.params, feat with
-  | .linear n w b, .num x => do
-      let v ← cell x r c
-      let v := match e.fill with | some (.num f) => (if SF.isNaN v then f.getD c 0 else v) | _ => v
-      pure (fin (cellLinear SF (← n.mean[c]?) (← n.std[c]?) (← w[c]?) (← b[c]?) v))
-  | .stack n, .num x => do
-      let v ← cell x r c
-      let v := match e.fill with | some (.num f) => (if SF.isNaN v then f.getD c 0 else v) | _ => v
-      pure (fin (cellStack SF (← n.mean[c]?) (← n.std[c]?) e.ch v))
-  | .bucket q w b, .num x => do
-      let v ← cell x r c
-      let v := match e.fill with | some (.num f) => (if SF.isNaN v then f.getD c 0 else v) | _ => v
-      pure (fin (cellBucket SF (← q[c]?) (← w[c]?) (← b[c]?) e.ch v))
-  | .periodic n li lo, .num x => do
-      let v ← cell x r c
-      let v := match e.fill with | some (.num f) => (if SF.isNaN v then f.getD c 0 else v) | _ => v
-      pure (fin (cellPeriodic SF (← n.mean[c]?) (← n.std[c]?) (← li[c]?) (← lo[c]?) e.ch v))
-  | .excel n w1 w2 b1 b2, .num x => do
-      let v ← cell x r c
-      let v := match e.fill with | some (.num f) => (if SF.isNaN v then f.getD c 0 else v) | _ => v
-      pure (fin (cellExcel SF (← n.mean[c]?) (← n.std[c]?) (← w1[c]?) (← w2[c]?) (← b1[c]?) (← b2[c]?) v))
-  | .embedding off t, .cat x => do
-      let v ← cell x r c
-      let v := match e.fill with | some (.int f) => (if v == -1 then f.getD c 0 else v) | _ => v
-      let i := embIndex (← off[c]?) v
-      if 0 ≤ i ∧ i < t.length then pure (fin (t.getD i.toNat [])) else none
-  | .bag mode ts, .bags x => do
-      let bag ← cell x r c
-      let bag := match e.fill with | some (.int f) => bag.map (fun t => if t == -1 then f.getD c 0 else t) | _ => bag
-      let tbl ← ts[c]?
-      if bagInRange tbl bag then pure (fin (bagReduce SF mode tbl e.ch bag)) else none
-  | .timestamp ys mv os w b, .time x => do
-      let ts ← cell x r c
-      let ts := match e.fill with | some (.time f) => (if ts.any (· == -1) then f.getD c [] else ts) | _ => ts
-      let my ← ys[c]?
-      if tsDomainOk mv ts my then pure (fin (cellTimestamp SF my mv os (← w[c]?) (← b[c]?) e.ch ts)) else none
-  | .linearEmb ds ws bs, .emb _ vals => do
-      let row ← vals[r]?
-      let v := (row.drop ((embStarts ds).getD c 0)).take (ds.getD c 0)
-      pure (fin (cellLinearEmb SF (← ws[c]?) (← bs[c]?) e.ch v))
-  | _, _ => none
+/-- per-cell evaluation through the specification layer (`cellForward`), independent of the batched passes -/
+def cellSpec (e : Encoder F) (c : Nat) (feat : Feat F) (r : Nat) : Option (List F) := do
+  let v ← cellAt e.params feat r c
+  let v' ← cellImpute SF e.fill c v
+  if cellDomainOk e.params c v' then cellForward SF e c v else none
 
 /-- `[.., mid]` for the float32-compared encoders: the intermediate `[B][C][K]` tensor fed to the einsum,
     from which the harness derives a magnitude bound for the widened tolerance -/
